@@ -74,6 +74,8 @@ Proof.
   { exfalso. apply app_eq_nil in E. destruct E as [_ E]. apply (scrash_from_ne _ _ E). }
   cbn [app]. rewrite <- app_assoc. reflexivity.
 Qed.
+Lemma scrash_last ps : forall s, In (run_sprims s ps) (scrash_from s ps).
+Proof. induction ps as [|p ps IH]; intros s; simpl; auto. right. apply in_or_app. right. apply IH. Qed.
 Lemma in_removelast {A} (l : list A) x : In x (removelast l) -> In x l.
 Proof. induction l as [|a l IH]; simpl; auto. destruct l; simpl in *; [tauto|]. intros [H|H]; auto. Qed.
 Lemma scrash_app_in s a b x : In x (scrash_from s (a ++ b)) -> In x (scrash_from s a) \/ In x (scrash_from (run_sprims s a) b).
@@ -515,6 +517,306 @@ Proof.
   { apply hist_okb_iff. apply (hist_ok_sub H); auto. apply hist_okb_iff. exact O. }
   pose proof (find_refines kname kpath false (dead s') (hdead H') L' (a_dag a) (a_req a) R' O') as FR. simpl in FR. rewrite FR.
   apply (sp_find_run false (dead s') (hdead H') L' e a R' O' Le' Nr).
+Qed.
+
+
+(* ---- rename: every prefix of the renames is related to a run map in which some runs of d already belong to d' ------------------- *)
+Definition mvd (d' : string) (x : sent * arun) : sent * arun := ((rekey d' (fst (fst x)), snd (fst x)), set_dag d' (snd x)).
+Definition mv1 (d' : string) (k : skey) (x : sent * arun) : sent * arun := if skey_eqb k (fst (fst x)) then mvd d' x else x.
+Definition H_of (next : nat) (L : pairing) : hist := {| h_runs := map snd L; h_cur := None; h_next := next |}.
+
+Lemma R2g_norm st s H L : R2g st (dead s) (hdead H) L -> R2g st (dead s) (hdead (H_of (h_next H) L)) L.
+Proof.
+  intros R. constructor; simpl; try apply R.
+  - apply Permutation_refl.
+  - apply (L_ids_nodup (dead s) (hdead H) L R).
+  - intros a Ia. apply in_map_iff in Ia. destruct Ia as [x [E Ix]]. subst a. apply (r_idlt _ _ _ _ R). apply (L_in_run (dead s) (hdead H) L R); auto.
+Qed.
+
+Lemma rekey_step st s next L e a d' :
+  R2g st (dead s) (hdead (H_of next L)) L -> In (e, a) L -> k_dag (fst e) <> d' -> ~ In (rekey d' (fst e)) (keys s) -> shas_dir s d' = true ->
+  R2g st (dead (run_sprim s (SRename (fst e) (rekey d' (fst e))))) (hdead (H_of next (map (mv1 d' (fst e)) L))) (map (mv1 d' (fst e)) L).
+Proof.
+  intros R I Nd Fr Dd. set (k := fst e) in *. set (k' := rekey d' k) in *.
+  pose proof (r_fst _ _ _ _ R) as RF. simpl in RF.
+  assert (Ik : In k (keys s)). { unfold keys. rewrite <- RF. rewrite map_map. apply in_map_iff. exists (e, a). auto. }
+  assert (NE : skey_eqb k k' = false). { apply skey_eqb_neq. intro X. apply Nd. rewrite X. reflexivity. }
+  assert (FK : filter (fun e0 : sent => negb (skey_eqb k' (fst e0))) (sfiles s) = sfiles s).
+  { rewrite <- (filter_true (sfiles s)) at 2. apply filter_ext_in. intros e0 He. destruct (skey_eqb k' (fst e0)) eqn:E; auto.
+    apply skey_eqb_eq in E. exfalso. apply Fr. fold k'. rewrite E. unfold keys. apply in_map. auto. }
+  assert (ST : run_sprim s (SRename k k') = {| sdirs := sdirs s; sfiles := map (fun e0 : sent => if skey_eqb k (fst e0) then (k', snd e0) else e0) (sfiles s) |}).
+  { unfold run_sprim. rewrite (proj2 (shas_true s k) Ik), NE. f_equal. f_equal. exact FK. }
+  rewrite ST.
+  constructor; simpl.
+  - rewrite <- RF. rewrite !map_map. apply map_ext. intros x. unfold mv1, mvd. simpl.
+    destruct (skey_eqb k (fst (fst x))) eqn:E; [|reflexivity]. apply skey_eqb_eq in E. simpl. unfold k'. rewrite E. reflexivity.
+  - apply Permutation_refl.
+  - apply Forall_forall. intros y Iy. apply in_map_iff in Iy. destruct Iy as [x [E Ix]]. subst y.
+    pose proof (L_frun (dead s) (hdead (H_of next L)) L R x Ix) as FR. unfold mv1. destruct (skey_eqb k (fst (fst x))); auto.
+    destruct FR as [G1 [G2 [G3 [G4 [G5 [G6 G7]]]]]]. unfold mvd, frun. simpl. repeat split; auto.
+  - exact Logic.I.
+  - unfold keys. simpl. rewrite map_map.
+    replace (map (fun x : sent => fst (if skey_eqb k (fst x) then (k', snd x) else x)) (sfiles s))
+      with (map (fun k0 => if skey_eqb k k0 then k' else k0) (keys s)).
+    2:{ unfold keys. rewrite map_map. apply map_ext. intros x. destruct (skey_eqb k (fst x)); reflexivity. }
+    apply NoDup_map_of_inj. { apply (r_keys _ _ _ _ R). }
+    intros k1 k2 I1 I2 E. destruct (skey_eqb k k1) eqn:E1, (skey_eqb k k2) eqn:E2; auto.
+    + apply skey_eqb_eq in E1, E2. congruence.
+    + exfalso. apply Fr. fold k'. rewrite E. exact I2.
+    + exfalso. apply Fr. fold k'. rewrite <- E. exact I1.
+  - rewrite !map_map. rewrite (map_ext _ (fun x : sent * arun => a_id (snd x))).
+    + rewrite <- (map_map snd a_id). apply (L_ids_nodup (dead s) (hdead (H_of next L)) L R).
+    + intros x. unfold mv1, mvd. destruct (skey_eqb k (fst (fst x))); reflexivity.
+  - intros b Ib. rewrite map_map in Ib. apply in_map_iff in Ib. destruct Ib as [x [E Ix]]. subst b.
+    assert (X : a_id (snd (mv1 d' k x)) = a_id (snd x)). { unfold mv1, mvd. destruct (skey_eqb k (fst (fst x))); reflexivity. }
+    rewrite X. apply (r_idlt _ _ _ _ R). simpl. apply in_map. auto.
+  - intros y Iy. apply in_map_iff in Iy. destruct Iy as [e0 [E I0]]. unfold shas_dir. simpl. fold (shas_dir s (k_dag (fst y))).
+    destruct (skey_eqb k (fst e0)); subst y; simpl.
+    + exact Dd.
+    + apply (r_dirs _ _ _ _ R e0 I0).
+Qed.
+
+Definition mrel (d d' : string) (x x' : sent * arun) : Prop := x' = x \/ (k_dag (fst (fst x)) = d /\ x' = mvd d' x).
+
+Lemma Forall2_in_r {A B} (P : A -> B -> Prop) l l' y : Forall2 P l l' -> In y l' -> exists x, In x l /\ P x y.
+Proof. induction 1; simpl; intros I; [tauto|]. destruct I as [I|I]. { subst. eauto. } destruct (IHForall2 I) as [x0 [I0 P0]]. eauto. Qed.
+Lemma Forall2_in_l {A B} (P : A -> B -> Prop) l l' x : Forall2 P l l' -> In x l -> exists y, In y l' /\ P x y.
+Proof. induction 1; simpl; intros I; [tauto|]. destruct I as [I|I]. { subst. eauto. } destruct (IHForall2 I) as [y0 [I0 P0]]. eauto. Qed.
+Lemma Forall2_map_r {A B} (P : A -> B -> Prop) (f : A -> B) l : (forall x, In x l -> P x (f x)) -> Forall2 P l (map f l).
+Proof. induction l; simpl; intros H; constructor; auto. Qed.
+Lemma Forall2_trans' {A} (P Q R : A -> A -> Prop) l1 l2 l3 :
+  (forall x y z, P x y -> Q y z -> R x z) -> Forall2 P l1 l2 -> Forall2 Q l2 l3 -> Forall2 R l1 l3.
+Proof. intros T F1. revert l3. induction F1; intros l3 F2; inversion F2; subst; constructor; eauto. Qed.
+
+Lemma crash_renames st d d' : d <> d' -> forall ks s next L,
+  R2g st (dead s) (hdead (H_of next L)) L -> NoDup ks -> (forall k, In k ks -> In k (keys s) /\ k_dag k = d) ->
+  (forall k, In k ks -> ~ In (rekey d' k) (keys s)) -> shas_dir s d' = true ->
+  forall x, In x (scrash_from s (map (fun k => SRename k (rekey d' k)) ks)) ->
+  exists L', R2g st (dead x) (hdead (H_of next L')) L' /\ Forall2 (mrel d d') L L'.
+Proof.
+  intros Nd. induction ks as [|k ks IH]; intros s next L R ND IK FR Dd x IN.
+  - simpl in IN. destruct IN as [IN|[]]. subst x. exists L. split; auto.
+    rewrite <- (map_id L) at 2. apply Forall2_map_r. intros; left; reflexivity.
+  - cbn [map scrash_from storn] in IN. simpl in IN. destruct IN as [IN|IN].
+    + subst x. exists L. split; auto. rewrite <- (map_id L) at 2. apply Forall2_map_r. intros; left; reflexivity.
+    + destruct (IK k (or_introl eq_refl)) as [Ik Dk].
+      pose proof (r_fst _ _ _ _ R) as RF. simpl in RF.
+      assert (EX : exists e a, In (e, a) L /\ fst e = k).
+      { unfold keys in Ik. rewrite <- RF in Ik. rewrite map_map in Ik. apply in_map_iff in Ik. destruct Ik as [[e a] [E I]]. exists e, a. auto. }
+      destruct EX as [e [a [La Ee]]]. subst k.
+      assert (R1 := rekey_step st s next L e a d' R La).
+      assert (Nk : k_dag (fst e) <> d') by (rewrite Dk; auto).
+      specialize (R1 Nk (FR (fst e) (or_introl eq_refl)) Dd).
+      apply NoDup_cons_iff in ND. destruct ND as [Hn Hd].
+      set (s1 := run_sprim s (SRename (fst e) (rekey d' (fst e)))) in *.
+      assert (K1 : forall y, In y (keys s1) -> y = rekey d' (fst e) \/ (In y (keys s) /\ y <> fst e)).
+      { intros y Hy. pose proof (r_fst _ _ _ _ R1) as RF1. change (sfiles (sst (dead s1))) with (sfiles s1) in RF1. unfold keys in Hy. rewrite <- RF1 in Hy.
+        rewrite !map_map in Hy. apply in_map_iff in Hy. destruct Hy as [z [E Iz]]. unfold mv1, mvd in E.
+        destruct (skey_eqb (fst e) (fst (fst z))) eqn:E2; simpl in E; subst y.
+        - left. apply skey_eqb_eq in E2. rewrite E2. reflexivity.
+        - right. split. { unfold keys. rewrite <- RF. rewrite map_map. apply in_map_iff. exists z. auto. }
+          apply skey_eqb_neq in E2. auto. }
+      assert (K2 : forall y, In y (keys s) -> y <> fst e -> In y (keys s1)).
+      { intros y Hy Ny. pose proof (r_fst _ _ _ _ R1) as RF1. change (sfiles (sst (dead s1))) with (sfiles s1) in RF1. unfold keys. rewrite <- RF1. rewrite !map_map.
+        unfold keys in Hy. rewrite <- RF in Hy. rewrite map_map in Hy. apply in_map_iff in Hy. destruct Hy as [z [E Iz]].
+        apply in_map_iff. exists z. split; auto. unfold mv1. destruct (skey_eqb (fst e) (fst (fst z))) eqn:E2; auto.
+        apply skey_eqb_eq in E2. congruence. }
+      destruct (IH s1 next (map (mv1 d' (fst e)) L) R1 Hd) with (x := x) as [L' [R' F']]; auto.
+      * intros k2 I2. destruct (IK k2 (or_intror I2)) as [P2 D2]. split; auto. apply K2; auto. intro X. subst k2. contradiction.
+      * intros k2 I2 X. apply K1 in X. destruct X as [X|[X _]].
+        -- apply rekey_inj in X. { subst k2. contradiction. } destruct (IK k2 (or_intror I2)) as [_ D2]. congruence.
+        -- apply (FR k2 (or_intror I2)); auto.
+      * unfold s1. simpl. destruct (shas s (fst e)); [destruct (skey_eqb (fst e) (rekey d' (fst e)))|]; exact Dd.
+      * exists L'. split; auto.
+        apply (Forall2_trans' (mrel d d') (mrel d d') (mrel d d') L (map (mv1 d' (fst e)) L) L'); auto.
+        -- intros x0 y0 z0 [P1|[P1 P2]] [Q1|[Q1 Q2]]; subst.
+           ++ left. reflexivity.
+           ++ right. auto.
+           ++ right. auto.
+           ++ exfalso. unfold mvd in Q1. simpl in Q1. auto.
+        -- apply Forall2_map_r. intros x0 I0. unfold mv1. destruct (skey_eqb (fst e) (fst (fst x0))) eqn:E2.
+           ++ right. split; auto. apply skey_eqb_eq in E2. rewrite <- E2. exact Dk.
+           ++ left. reflexivity.
+Qed.
+
+
+Definition postf (d d' : string) (b : arun) : arun := if String.eqb (a_dag b) d then set_dag d' b else b.
+
+(* the run map of a prefix state is consistent (distinct ids/seconds per DAG) because BEFORE and AFTER are *)
+Lemma mixed_hist_ok st s H L d d' next L' : d <> d' -> R2g st (dead s) (hdead H) L -> hist_okb H = true ->
+  hist_okb (sp_apply H (ORename d d')) = true -> Forall2 (mrel d d') L L' -> hist_ok (H_of next L').
+Proof.
+  intros Nd R O O' F. apply hist_okb_iff in O. apply hist_okb_iff in O'.
+  assert (POST : forall b, In b (h_runs H) -> In (postf d d' b) (h_runs (sp_apply H (ORename d d')))).
+  { intros b Ib. simpl. apply in_map_iff. exists b. split; auto. }
+  assert (CL : forall b c b' c', a_req b' = a_req b -> a_stamp b' = a_stamp b -> a_req c' = a_req c -> a_stamp c' = a_stamp c ->
+                 a_dag b = a_dag c -> clash b' c' = true -> clash b c = true).
+  { intros b c b' c' E1 E2 E3 E4 E5 C. unfold clash in *. apply andb_prop in C. destruct C as [_ C].
+    rewrite E1, E2, E3, E4 in C. rewrite E5, String.eqb_refl. exact C. }
+  intros x' y' Ix Iy C. simpl in Ix, Iy. apply in_map_iff in Ix, Iy.
+  destruct Ix as [px [Ex Ipx]], Iy as [py [Ey Ipy]]. subst x' y'.
+  destruct (Forall2_in_r _ _ _ _ F Ipx) as [ox [Iox Rx]]. destruct (Forall2_in_r _ _ _ _ F Ipy) as [oy [Ioy Ry]].
+  pose proof (L_in_run (dead s) (hdead H) L R ox Iox) as Hx. pose proof (L_in_run (dead s) (hdead H) L R oy Ioy) as Hy. simpl in Hx, Hy.
+  pose proof (L_frun (dead s) (hdead H) L R ox Iox) as [Dx _]. pose proof (L_frun (dead s) (hdead H) L R oy Ioy) as [Dy _].
+  assert (DG : a_dag (snd px) = a_dag (snd py)).
+  { unfold clash in C. apply andb_prop in C. destruct C as [C _]. apply String.eqb_eq in C. exact C. }
+  destruct Rx as [Rx|[Rx1 Rx2]], Ry as [Ry|[Ry1 Ry2]]; subst px py.
+  - apply O; auto.
+  - (* x unmoved, y moved: compare in AFTER *)
+    unfold mvd in *. simpl in *.
+    assert (PX : postf d d' (snd ox) = snd ox).
+    { unfold postf. destruct (String.eqb (a_dag (snd ox)) d) eqn:E; auto. apply String.eqb_eq in E. exfalso.
+      apply Nd. congruence. }
+    assert (PY : postf d d' (snd oy) = set_dag d' (snd oy)). { unfold postf. rewrite <- Dy, Ry1, String.eqb_refl. reflexivity. }
+    pose proof (O' _ _ (POST _ Hx) (POST _ Hy)) as Q. rewrite PX, PY in Q. apply Q. exact C.
+  - unfold mvd in *. simpl in *.
+    assert (PY : postf d d' (snd oy) = snd oy).
+    { unfold postf. destruct (String.eqb (a_dag (snd oy)) d) eqn:E; auto. apply String.eqb_eq in E. exfalso.
+      apply Nd. congruence. }
+    assert (PX : postf d d' (snd ox) = set_dag d' (snd ox)). { unfold postf. rewrite <- Dx, Rx1, String.eqb_refl. reflexivity. }
+    pose proof (O' _ _ (POST _ Hx) (POST _ Hy)) as Q. rewrite PX, PY in Q. apply Q. exact C.
+  - unfold mvd in *. simpl in *. apply O; auto. apply (CL _ _ (set_dag d' (snd ox)) (set_dag d' (snd oy))); auto. congruence.
+Qed.
+
+(* P1 for rename: whatever prefix of the renames was executed, a run of another DAG is found intact, and a run of d is found
+   intact under exactly one of the two names *)
+Theorem crash_rename h H L seen d d' s' :
+  R2 h H L -> hist_okb H = true -> incl (keys (sst h)) seen -> op_okb h seen (ORename d d') = true ->
+  hist_okb (sp_apply H (ORename d d')) = true ->
+  In s' (scrash_states kname kpath h (ORename d d')) ->
+  forall a, In a (h_runs H) -> a_req a <> "" ->
+    (a_dag a <> d -> fres_payload (sq_find kname kpath s' (a_dag a) (a_req a)) = last_opt (a_sts a))
+    /\ (a_dag a = d ->
+         (fres_payload (sq_find kname kpath s' d (a_req a)) = last_opt (a_sts a) /\ fres_payload (sq_find kname kpath s' d' (a_req a)) = None)
+         \/ (fres_payload (sq_find kname kpath s' d (a_req a)) = None /\ fres_payload (sq_find kname kpath s' d' (a_req a)) = last_opt (a_sts a))).
+Proof.
+  intros R O IS P O' IN a Ia Nr.
+  simpl in P. apply andb_prop in P. destruct P as [P P3]. apply andb_prop in P. destruct P as [P1 _].
+  apply negb_true_iff in P1. apply String.eqb_neq in P1.
+  pose proof (R2g_weaken h H L R) as RW. pose proof (R2g_norm false (sst h) H L RW) as RN. simpl in RN.
+  (* the prefix state and its pairing *)
+  assert (EX : exists L', R2g false (dead s') (hdead (H_of (h_next H) L')) L' /\ Forall2 (mrel d d') L L').
+  { unfold scrash_states in IN. simpl sprims in IN. destruct (shas_dir (sst h) d) eqn:Dd.
+    2:{ simpl in IN. destruct IN as [IN|[]]. subst s'. exists L. split; auto. rewrite <- (map_id L) at 2. apply Forall2_map_r. intros; left; reflexivity. }
+    set (G := sglob kname (sst h) d PAll) in *. set (ks := map fst G).
+    assert (EQ : map (fun e : skey * file => SRename (fst e) (rekey d' (fst e))) G = map (fun k => SRename k (rekey d' k)) ks)
+      by (unfold ks; rewrite map_map; reflexivity).
+    change ([SMkdir d'] ++ map (fun e : sent => SRename (fst e) (rekey d' (fst e))) G ++ [SRmdir d])
+      with ([SMkdir d'] ++ (map (fun e : skey * file => SRename (fst e) (rekey d' (fst e))) G ++ [SRmdir d])) in IN.
+    rewrite EQ in IN.
+    set (s1 := run_sprim (sst h) (SMkdir d')) in *.
+    assert (F1 : sfiles s1 = sfiles (sst h)) by apply mkdir_files.
+    assert (R1 : R2g false (dead s1) (hdead (H_of (h_next H) L)) L).
+    { apply (R2g_dirs false (sst h)); auto. intros d0 Hd. apply mkdir_dir_mono; auto. }
+    assert (GM : forall e, In e G <-> In e (sfiles (sst h)) /\ k_dag (fst e) = d) by (intros e; apply (sglob_member kname _ h H L d e R)).
+    assert (FRESH : forall e, In e (sfiles (sst h)) -> k_dag (fst e) = d -> ~ In (rekey d' (fst e)) (keys (sst h))).
+    { intros e Ie De X. rewrite forallb_forall in P3. specialize (P3 e Ie). rewrite De, String.eqb_refl in P3.
+      apply negb_true_iff in P3. apply memk_false in P3. apply P3, IS, X. }
+    assert (NDG : NoDup ks).
+    { unfold ks. apply (Permutation_NoDup (l := map fst (filter (fun e : sent => String.eqb (k_dag (fst e)) d && in_patk PAll (fst e)) (sfiles (sst h))))).
+      - apply Permutation_map, Permutation_sym, (sglob_perm kname _ h H L d PAll R).
+      - apply NoDup_map_filter. apply (r_keys _ _ _ _ R). }
+    assert (K1 : keys s1 = keys (sst h)) by (apply keys_files; auto).
+    assert (CR : forall x, In x (scrash_from s1 (map (fun k => SRename k (rekey d' k)) ks)) ->
+                 exists L', R2g false (dead x) (hdead (H_of (h_next H) L')) L' /\ Forall2 (mrel d d') L L').
+    { intros x Ix. apply (crash_renames false d d' P1 ks s1 (h_next H) L R1 NDG); auto.
+      - intros k Ik. unfold ks in Ik. apply in_map_iff in Ik. destruct Ik as [e [Ee Ie]]. apply GM in Ie. destruct Ie as [If Dg].
+        subst k. split; auto. rewrite K1. unfold keys. apply in_map. auto.
+      - intros k Ik. unfold ks in Ik. apply in_map_iff in Ik. destruct Ik as [e [Ee Ie]]. apply GM in Ie. destruct Ie as [If Dg].
+        subst k. rewrite K1. apply FRESH; auto.
+      - apply mkdir_dir_self. }
+    change (SMkdir d' :: map (fun k : skey => SRename k (rekey d' k)) ks ++ [SRmdir d])
+      with ([SMkdir d'] ++ (map (fun k : skey => SRename k (rekey d' k)) ks ++ [SRmdir d])) in IN.
+    apply scrash_app_in in IN. destruct IN as [IN|IN].
+    - assert (CL : scrash_from (sst h) [SMkdir d'] = [sst h; s1]) by reflexivity. rewrite CL in IN.
+      destruct IN as [X|[X|[]]]; subst s'.
+      + exists L. split; auto. rewrite <- (map_id L) at 2. apply Forall2_map_r. intros; left; reflexivity.
+      + exists L. split; auto. rewrite <- (map_id L) at 2. apply Forall2_map_r. intros; left; reflexivity.
+    - change (run_sprims (sst h) [SMkdir d']) with s1 in IN.
+      apply scrash_app_in in IN. destruct IN as [IN|IN]; [apply CR; auto|].
+      (* after all renames: the rmdir only touches the directory list *)
+      set (s2 := run_sprims s1 (map (fun k => SRename k (rekey d' k)) ks)) in *.
+      assert (I2 : In s2 (scrash_from s1 (map (fun k => SRename k (rekey d' k)) ks))) by apply scrash_last.
+      destruct (CR s2 I2) as [L' [R' F']].
+      assert (CL : scrash_from s2 [SRmdir d] = [s2; run_sprim s2 (SRmdir d)]) by reflexivity. rewrite CL in IN.
+      destruct IN as [X|[X|[]]]; subst s'; [exists L'; auto|].
+      exists L'. split; auto.
+      assert (NOD : forall e, In e (sfiles s2) -> k_dag (fst e) <> d).
+      { intros e Ie De. pose proof (r_fst _ _ _ _ R') as RF'. simpl in RF'. rewrite <- RF' in Ie. apply in_map_iff in Ie.
+        destruct Ie as [x' [Ex Ix']]. destruct (Forall2_in_r _ _ _ _ F' Ix') as [x [Ix Rx]].
+        pose proof (L_frun h H L R x Ix) as [Dx _].
+        assert (RK : sfiles s2 = rekey_in d' ks (sfiles s1)).
+        { unfold s2. rewrite (run_renames d d' P1 ks s1); auto.
+          - rewrite K1. apply (r_keys _ _ _ _ R).
+          - intros k Ik. unfold ks in Ik. apply in_map_iff in Ik. destruct Ik as [e0 [Ee Ie0]]. apply GM in Ie0. destruct Ie0 as [If Dg].
+            subst k. split; auto. rewrite K1. unfold keys. apply in_map. auto.
+          - intros k Ik. unfold ks in Ik. apply in_map_iff in Ik. destruct Ik as [e0 [Ee Ie0]]. apply GM in Ie0. destruct Ie0 as [If Dg].
+            subst k. rewrite K1. apply FRESH; auto. }
+        assert (Ie2 : In e (sfiles s2)) by (rewrite <- RF'; apply in_map_iff; exists x'; auto).
+        rewrite RK in Ie2. unfold rekey_in in Ie2. apply in_map_iff in Ie2. destruct Ie2 as [e0 [E0 I0]]. rewrite F1 in I0.
+        destruct (existsb (fun k => skey_eqb k (fst e0)) ks) eqn:EXB.
+        - rewrite <- E0 in De. simpl in De. apply P1. auto.
+        - rewrite E0 in *. assert (In (fst e) ks). { unfold ks. apply in_map. apply GM. auto. }
+          assert (existsb (fun k => skey_eqb k (fst e)) ks = true).
+          { apply existsb_exists. exists (fst e). split; auto. apply skey_eqb_refl. } congruence. }
+      assert (EMP : sdir_empty s2 d = true).
+      { unfold sdir_empty. apply negb_true_iff. apply not_true_is_false. intro X. apply existsb_exists in X.
+        destruct X as [e [Ie Ee]]. apply String.eqb_eq in Ee. apply (NOD e Ie Ee). }
+      assert (ST : run_sprim s2 (SRmdir d) = {| sdirs := filter (fun x => negb (String.eqb x d)) (sdirs s2); sfiles := sfiles s2 |}).
+      { simpl. rewrite EMP. reflexivity. }
+      rewrite ST. constructor; simpl; try apply R'.
+      intros e Ie. unfold shas_dir. simpl. rewrite existsb_filter_ne. fold (shas_dir s2 (k_dag (fst e))).
+      pose proof (r_dirs _ _ _ _ R' e Ie) as RD. simpl in RD. rewrite RD. simpl. apply negb_true_iff. apply String.eqb_neq. apply NOD; auto. }
+  destruct EX as [L' [R' F']].
+  assert (OK' : hist_okb (H_of (h_next H) L') = true).
+  { apply hist_okb_iff. apply (mixed_hist_ok false (sst h) H L d d' (h_next H) L'); auto. }
+  assert (FQ : forall d0 req, fres_payload (sq_find kname kpath s' d0 req) = sp_find (H_of (h_next H) L') d0 req).
+  { intros d0 req. apply (find_refines kname kpath false (dead s') (hdead (H_of (h_next H) L')) L' d0 req R' OK'). }
+  destruct (run_in_L h H L R a Ia) as [e Le].
+  destruct (Forall2_in_l _ _ _ _ F' Le) as [x' [Ix' Rx']].
+  pose proof (L_frun h H L R (e, a) Le) as [Da _]. simpl in Da.
+  (* no run of the OTHER name carries a's request id *)
+  assert (NONE : forall other, a_dag (snd x') <> other -> (other = d \/ other = d') -> (a_dag a = d) ->
+                 sp_find (H_of (h_next H) L') other (a_req a) = None).
+  { intros other No Oth Dd. unfold sp_find. apply String.eqb_neq in Nr. rewrite Nr. simpl.
+    destruct (find (is_run other (a_req a)) (map snd L')) as [b|] eqn:Fb; auto. exfalso.
+    apply find_some in Fb. destruct Fb as [Ib Rb]. unfold is_run in Rb.
+    apply andb_prop in Rb. destruct Rb as [Rb _]. apply andb_prop in Rb. destruct Rb as [Rb1 Rb2]. apply String.eqb_eq in Rb1, Rb2.
+    apply in_map_iff in Ib. destruct Ib as [y' [Ey Iy']]. subst b.
+    assert (SAME : a_id (snd x') = a_id (snd y')).
+    { pose proof (mixed_hist_ok false (sst h) H L d d' (h_next H) L' P1 RW O O' F') as MO.
+      destruct (Forall2_in_r _ _ _ _ F' Iy') as [y [Iy Ry]].
+      pose proof (L_in_run h H L R y Iy) as Hy. pose proof (L_frun h H L R y Iy) as [Dy _].
+      assert (POST : forall b, In b (h_runs H) -> In (postf d d' b) (h_runs (sp_apply H (ORename d d')))).
+      { intros b Ib. simpl. apply in_map_iff. exists b. split; auto. }
+      apply hist_okb_iff in O. apply hist_okb_iff in O'.
+      destruct Rx' as [Rx'|[Rx1 Rx2]], Ry as [Ry|[Ry1 Ry2]]; subst x' y'; unfold mvd in *; simpl in *.
+      - (* both unmoved: a has dag d, y has dag `other` = d' *)
+        destruct Oth as [Oth|Oth]; [congruence|].
+        assert (PA : postf d d' a = set_dag d' a). { unfold postf. rewrite Dd, String.eqb_refl. reflexivity. }
+        assert (PY : postf d d' (snd y) = snd y). { unfold postf. rewrite Rb1, Oth. destruct (String.eqb d' d) eqn:E; auto. apply String.eqb_eq in E. congruence. }
+        pose proof (O' _ _ (POST _ Ia) (POST _ Hy)) as Q. rewrite PA, PY in Q. apply Q.
+        unfold clash. simpl. rewrite Rb1, Oth, String.eqb_refl, Rb2, String.eqb_refl. reflexivity.
+      - (* a unmoved (dag d), y moved (dag d'): both in d BEFORE *)
+        apply O; auto. unfold clash. rewrite Dd, <- Dy, Ry1, String.eqb_refl. simpl in Rb2. rewrite Rb2, String.eqb_refl. reflexivity.
+      - (* a moved (dag d'), y unmoved with dag `other` = d: both in d BEFORE *)
+        destruct Oth as [Oth|Oth]; [|congruence].
+        apply O; auto. unfold clash. rewrite Dd, Rb1, Oth, String.eqb_refl, Rb2, String.eqb_refl. reflexivity.
+      - (* both moved: y' has dag d' = other, but a's image has dag d' too *)
+        exfalso. apply No. simpl in Rb1. exact Rb1. }
+    assert (x' = y') by (apply (L_id_unique (dead s') (hdead (H_of (h_next H) L')) L' R'); auto).
+    subst y'. apply No. exact Rb1. }
+  assert (OWN : sp_find (H_of (h_next H) L') (a_dag (snd x')) (a_req a) = last_opt (a_sts a)).
+  { destruct x' as [e' a']. simpl in *.
+    assert (EA : a_req a' = a_req a /\ a_sts a' = a_sts a).
+    { destruct Rx' as [Rx'|[_ Rx']]; inversion Rx'; subst; auto. }
+    destruct EA as [E1 E2]. rewrite <- E1, <- E2.
+    apply (sp_find_run false (dead s') (hdead (H_of (h_next H) L')) L' e' a' R' OK' Ix'). congruence. }
+  split.
+  - intros Nd. rewrite FQ. destruct Rx' as [Rx'|[Rx1 _]]; [subst x'; exact OWN | simpl in Rx1; congruence].
+  - intros Dd. destruct Rx' as [Rx'|[Rx1 Rx2]].
+    + subst x'. simpl in *. left. rewrite !FQ. rewrite <- Dd. split; [exact OWN|]. apply NONE; auto. rewrite Dd. auto.
+    + subst x'. unfold mvd in *. simpl in *. right. rewrite !FQ. split; [|exact OWN]. apply NONE; auto.
 Qed.
 
 End K.
